@@ -463,6 +463,29 @@ def run_case(ctx, spec, cases_k, cases_g, meta, kmeta, jit_cases, jit_meta):
             and np.allclose(P3, np.asarray(st_u.pred_mat), rtol=1e-10, atol=1e-12 * (1 + float(np.max(np.abs(P3)))))):
         viol("state after sample_and_update differs from update(feature, sampled target)", "sample_and_update_state")
 
+    # ---- a plain target VECTOR of shape (n,) handed to the state classes directly is one target column ---------
+    if m == 1:
+        try:
+            s1 = GaussProcPosteriorState(X.copy(), Y[:, 0].copy(), meanf, kernel_arg, noise_arr)
+            s1i = IncrementalUpdateGPPosteriorState(X.copy(), Y[:, 0].copy(), meanf, kernel_arg, noise_arr)
+            m1, v1 = s1.predict(Xt.copy())
+            m1, v1 = np.asarray(m1), np.asarray(v1)
+            nl1 = float(np.reshape(s1.neg_log_likelihood(), (-1,))[0])
+            s1u = s1i.update(xnew.copy(), ynew.reshape(-1).copy())
+            ok_shape = (m1.shape == (t, 1) and v1.shape == (t,) and np.asarray(s1.pred_mat).shape == (n, 1)
+                        and np.asarray(s1u.pred_mat).shape == (n + 1, 1) and s1.num_fantasies == 1)
+            if not ok_shape:
+                viol("1-D targets of shape (n,): predict means have shape %s (want (%d, 1)), pred_mat %s (want (%d, 1))"
+                     % (m1.shape, t, np.asarray(s1.pred_mat).shape, n), "targets_vector_shape")
+            elif not (np.allclose(m1, mu, rtol=1e-12, atol=1e-300) and np.allclose(v1, var, rtol=1e-12, atol=1e-300)
+                      and abs(nl1 - nl) <= 1e-12 * (1 + abs(nl))
+                      and np.allclose(np.asarray(s1u.chol_fact), L2, rtol=1e-12, atol=1e-300)
+                      and np.allclose(np.asarray(s1u.pred_mat), P2, rtol=1e-10, atol=1e-12 * (1 + float(np.max(np.abs(P2)))))):
+                viol("state built from a 1-D target vector differs from the state built from the same targets as an "
+                     "(n, 1) matrix", "targets_vector_value")
+        except (AssertionError, ValueError, IndexError, TypeError) as e:
+            viol("state classes fail on a 1-D target vector of shape (n,): %r" % (e,), "targets_vector_exception")
+
     # ---- the state must not alias the caller's arrays: overwrite every array handed in, results stay bit-identical --
     Xa, Ya, Xta, xna, yna, na_ = X.copy(), Y.copy(), Xt.copy(), xnew.copy(), ynew.copy(), noise_arr.copy()
     karg_a = kern if spec["cs2"] is None else (kern, np.array([spec["cs2"]]))
@@ -706,7 +729,7 @@ def run(ctx, replay=None):
     ctx.rule += ("; PLUS composite kernels (WarpedKernel with 1..3 Warping blocks incl. non-contiguous ranges and "
                  "Kumaraswamy parameters away from 1, ProductKernelFunction, RangeKernelFunction, "
                  "ExponentialDecayResourcesKernelFunction as plain kernels): kernel matrices, predict, likelihood, "
-                 "incremental-vs-scratch against an independent numpy implementation; PLUS a few LARGE data sets (n 64/128/260, covariance scale and noise at the ends of their boxes): likelihood and two predictions against the slogdet-based dense reference; PLUS, for every state, all input arrays are overwritten in place afterwards and predict / likelihood / update must be bit-identical")
+                 "incremental-vs-scratch against an independent numpy implementation; PLUS a few LARGE data sets (n 64/128/260, covariance scale and noise at the ends of their boxes): likelihood and two predictions against the slogdet-based dense reference; PLUS, for every state, all input arrays are overwritten in place afterwards and predict / likelihood / update must be bit-identical; PLUS 1-D target vectors handed to the state classes directly; PLUS fit streams on GaussianProcessRegression (first fit, refit on more data with every optimiser restart failing through a harness-side mock, refit): predict = dense posterior of the data of that fit under get_params()")
     if replay is not None:
         if replay.get("kind") == "gpc":
             import warnings
@@ -718,6 +741,12 @@ def run(ctx, replay=None):
                 ctx.violation("correspondence", "model composite kernel matrix differs from the implementation", case=ck_meta[i],
                               failing_input=False, broken="correspondence chk_ckernel (model/GPLin.v warped/product/range kernel)")
             return
+        if replay.get("kind") == "gpf":
+            import warnings
+            with warnings.catch_warnings():
+                warnings.simplefilter("ignore")
+                gplin_composite.run_fit(ctx, replay["spec"])
+            return
         if replay.get("kind") == "gpl":
             import warnings
             with warnings.catch_warnings():
@@ -727,11 +756,12 @@ def run(ctx, replay=None):
         if replay.get("kind") != "gp":
             return
         specs = [replay["spec"]]
-        cspecs, lspecs = [], []
+        cspecs, lspecs, fspecs = [], [], []
     else:
         specs = [gen_spec(rng) for _ in range(ctx.n(400, 3000))]
         cspecs = [gplin_composite.gen_spec(rng) for _ in range(ctx.n(250, 2000))]
         lspecs = [gplin_composite.gen_large(rng, k_) for k_ in range(ctx.n(6, 36))]
+        fspecs = [gplin_composite.gen_fit(rng, k_) for k_ in range(ctx.n(6, 40))]
     cases_k, cases_g, meta, kmeta, jit_cases, jit_meta = [], [], [], [], [], []
     ck_cases, ck_meta = [], []
     import warnings
@@ -756,6 +786,8 @@ def run(ctx, replay=None):
                 ctx.samples.insert(0, info)
         for lspec in lspecs:
             gplin_composite.run_large(ctx, lspec)
+        for fspec in fspecs:
+            gplin_composite.run_fit(ctx, fspec)
     for i in ctx.coq_bad_cases("kernel", IMPORTS, PRELUDE, "chk_kernel", cases_k, shard=40):
         ctx.violation("correspondence", "model Matern-5/2 kernel matrix differs from Matern52.forward/diagonal "
                       "beyond round-off", case=kmeta[i], failing_input=False,
